@@ -547,6 +547,17 @@ fn run_single_program(
         }
         Ok(ForkResult::Parent { child, .. }) => {
             let pid: i32 = child.into();
+            unsafe {
+                // Put the child into the pipeline's process group from the
+                // parent as well. The child does the same for itself, but a
+                // later stage can reach its setpgid() before the first stage
+                // has created the group: that call then fails with EPERM and
+                // the stage stays in the shell's own group (it would miss
+                // Ctrl-Z / Ctrl-C and `fg` / `bg`). Errors here are harmless
+                // (EACCES: the child has already exec'ed, after its own call).
+                let gid = if idx_cmd == 0 { pid } else { *pgid };
+                libc::setpgid(pid, gid);
+            }
             if idx_cmd == 0 {
                 *pgid = pid;
                 unsafe {
